@@ -97,10 +97,28 @@ func (h *bufHist) sig() string {
 }
 
 // drawHistory chooses what the send buffer looks like before the encode under test.
-func drawHistory(c *RunCtx, g *Gen, refLen int) *bufHist {
+func drawHistory(c *RunCtx, g *Gen, refLen int, subject string) *bufHist {
 	t := c.T
 	h := &bufHist{}
 	var parts []string
+	if t.Intn(6) == 5 {
+		// the process's history: an earlier Encode that FAILED in the library's ordinary way (missing
+		// extension with an unregistered discriminator) - of the type under test if it carries a
+		// discriminator table, or inside a frame - into a buffer of its own
+		dt := discTypes()
+		name := dt[t.Intn(len(dt))]
+		if ts := schema.Types[subject]; ts != nil && ts.Table != "" && t.Intn(2) == 0 {
+			name = subject
+		}
+		m := g.Value(name)
+		if breakForEncode(reflect.ValueOf(m).Elem(), schemaOf(name)) {
+			var scratch bytes.Buffer
+			if r := tryEncode(m, &scratch); r.Err != nil && r.Panic == nil {
+				c.Fire("hist.failed-encode")
+				parts = append(parts, "after-a-failed-encode-of:"+name)
+			}
+		}
+	}
 	switch t.Intn(6) {
 	case 0:
 		parts = append(parts, "empty")
@@ -260,7 +278,7 @@ func runC06(c *RunCtx) {
 		return
 	}
 	c.Logf("TRIVIAL-HISTORY ENCODING %s", hexClip(ref, 96))
-	h := drawHistory(c, g, len(ref))
+	h := drawHistory(c, g, len(ref), name)
 	buf := h.build()
 	c.Logf("HISTORY %s (unread=%d)", h.desc, h.unread())
 	expect := cloneBytes(buf.Bytes())
@@ -350,6 +368,7 @@ func runFrame(c *RunCtx, prop string) {
 	geom := frameGeoms[name]
 	var m any
 	bodyKind := "body"
+	ki := t.Intn(len(schema.Tables[schemaOf(name).Table].Keys))
 	switch {
 	case c.Thorough && t.Chance(1, 2500):
 		m = jumboFrame(g, 8_450_000+t.Intn(100_000))
@@ -359,12 +378,12 @@ func runFrame(c *RunCtx, prop string) {
 		c.Probe("jumbo-frame")
 	case t.Chance(1, 12):
 		g.cfg.NilBody = true
-		m = g.Value(name)
+		m = g.ValueWithKey(name, ki)
 		g.cfg.NilBody = false
 		bodyKind = "absent"
 		c.Probe("absent-body")
 	default:
-		m = g.Value(name)
+		m = g.ValueWithKey(name, ki)
 	}
 	if bodyKind != "absent" {
 		c.Count("body."+typeNameOf(frameField(m, geom.BodyField).Interface()), 1)
@@ -414,7 +433,7 @@ func runFrame(c *RunCtx, prop string) {
 		}
 	}
 	verify("encode into an empty buffer", "noprior", "fresh", refObj, ref)
-	h := drawHistory(c, g, len(ref))
+	h := drawHistory(c, g, len(ref), name)
 	buf := h.build()
 	c.Logf("HISTORY %s (unread=%d)", h.desc, h.unread())
 	re := t.Intn(3)
@@ -446,4 +465,79 @@ func runFrame(c *RunCtx, prop string) {
 		}
 		verify(step, hsig, h.desc, m, a)
 	}
+	// another frame of the same type behind it - usually carrying the same message type with a
+	// differently sized body (what a per-type cache of lengths or offsets would get wrong)
+	if bodyKind != "jumbo" && t.Intn(3) == 0 {
+		k2 := ki
+		if t.Intn(3) == 0 {
+			k2 = t.Intn(len(schema.Tables[schemaOf(name).Table].Keys))
+		}
+		m2 := g.ValueWithKey(name, k2)
+		before := buf.Len()
+		if r := tryEncode(m2, buf); r.Panic == nil && r.Err == nil && buf.Len() >= before {
+			c.Fire("hist.batch")
+			hs := "noprior"
+			if before > 0 {
+				hs = "prior"
+			}
+			verify("encode of another frame of the same type behind it", hs, h.desc+",second-frame", m2, buf.Bytes()[before:])
+		}
+	}
+	// the send buffer is recycled for the next frame: Reset, same object with other field values
+	// of the same size (sequence numbers move on), encoded at the same place in the same array
+	if t.Intn(3) == 0 {
+		if n := tweakNumbers(reflect.ValueOf(m).Elem(), schemaOf(name)); n > 0 {
+			buf.Reset()
+			r := tryEncode(m, buf)
+			if r.Panic != nil || r.Err != nil {
+				c.Probe("skip.encode-failed-under-history")
+				return
+			}
+			c.Fire("pool.reuse-after-reset")
+			verify("encode of the next frame (same size, other field values) after Reset of the same buffer", "reset", h.desc+",reset", m, buf.Bytes())
+		}
+	}
+}
+
+// tweakNumbers inverts every plain numeric field (not computed, not a discriminator) and every
+// numeric list element reachable from a value, leaving its encoded size unchanged.
+func tweakNumbers(rv reflect.Value, ts *TypeSchema) int {
+	n := 0
+	for i := range ts.Fields {
+		f := &ts.Fields[i]
+		fv := fieldOf(rv, f.Name)
+		switch f.Kind {
+		case "num":
+			if f.Computed == "" && f.Name != ts.Discriminator {
+				setBits(fv, ^getBits(fv))
+				n++
+			}
+		case "numlist":
+			for j := 0; j < fv.Len(); j++ {
+				setBits(fv.Index(j), ^getBits(fv.Index(j)))
+				n++
+			}
+		case "obj":
+			if fv.Kind() == reflect.Ptr {
+				if !fv.IsNil() {
+					n += tweakNumbers(fv.Elem(), schemaOf(typeNameOfType(fv.Type())))
+				}
+			} else {
+				n += tweakNumbers(fv, schemaOf(typeNameOfType(fv.Type())))
+			}
+		case "objlist":
+			for j := 0; j < fv.Len(); j++ {
+				if e := fv.Index(j); !e.IsNil() {
+					n += tweakNumbers(e.Elem(), schemaOf(typeNameOfType(e.Type())))
+				}
+			}
+		case "body":
+			if !fv.IsNil() {
+				if dn := typeNameOfType(fv.Elem().Type()); schema.Types[dn] != nil {
+					n += tweakNumbers(fv.Elem().Elem(), schemaOf(dn))
+				}
+			}
+		}
+	}
+	return n
 }
